@@ -456,7 +456,9 @@ func All(r *common.Rand, big bool, validTx []byte) []Doc {
 	// node tx: the hex shortcut, valid / invalid / hostile
 	hostileHex := "0100000001" + strings.Repeat("aa", 36) + "ff0000000000010000" + "51"
 	hexes := []Str{S(validHex), S(validHex + "00"), S(validHex[:len(validHex)-2]), S(validHex[:len(validHex)-1]), S("zz"), S(strings.ToUpper(validHex)),
-		S(hostileHex), S("0100000001" + strings.Repeat("aa", 36) + "ffffffffffffffffff"), S("01000000ff00"), S("00"), {Null, ""}, {Mistyped, ""}, S("")}
+		S(hostileHex), S("0100000001" + strings.Repeat("aa", 36) + "ffffffffffffffffff"), S("01000000ff00"), S("00"), {Null, ""}, {Mistyped, ""}, S(""),
+		// one- and two-character strings (prefix tests index into them), prefixes other tools emit
+		S("0"), S("1"), S("a"), S("z"), S("x"), S("0x"), S("0X"), S("0g"), S("000"), S("0x" + validHex), S(" " + validHex), S("\\x00")}
 	for _, h := range hexes {
 		t := base()
 		t.Hex = h
